@@ -57,6 +57,7 @@ NoKey == [h |-> -1]
 
 IsRunStart(x) == x.call = "RunStart"
 IsRunEnd(x) == x.call = "RunEnd"
+IsPair(x) == x.call = "Pair"
 
 Cbs(e, k) == {j \in 1..Len(e.cb) : e.cb[j].k = k}
 Bcs(e) == Cbs(e, "Broadcast")
@@ -76,6 +77,16 @@ Body(p) == CASE p.t = "PrepareRequest" -> <<p.ts, p.nonce, p.txs>>
              [] p.t = "PrepareResponse" -> <<p.ph>>
              [] p.t \in {"Commit", "PreCommit"} -> <<p.v, p.s, p.b>>
              [] OTHER -> <<>>
+
+\* effect callbacks of a call (what the conformance check and the clock-shift comparison look at)
+EffectKinds == {"Broadcast", "TimerReset", "TimerExtend", "ProcessBlock", "ProcessPreBlock", "RequestTx", "SubscribeForTxs", "StopTxFlow"}
+EffectOf(c) == CASE c.k = "Broadcast" -> [k |-> c.k, m |-> c.m]
+                 [] c.k = "TimerReset" -> [k |-> c.k, h |-> c.h, v |-> c.v, d |-> c.d]
+                 [] c.k = "TimerExtend" -> [k |-> c.k, d |-> c.d]
+                 [] c.k \in {"ProcessBlock", "ProcessPreBlock"} -> [k |-> c.k, block |-> c.block, ok |-> c.ok]
+                 [] c.k = "RequestTx" -> [k |-> c.k, hashes |-> c.hashes]
+                 [] OTHER -> [k |-> c.k]
+EffectsSeq(e) == LET sel == SelectSeq(e.cb, LAMBDA c : c.k \in EffectKinds) IN [i \in 1..Len(sel) |-> EffectOf(sel[i])]
 
 -----------------------------------------------------------------------------
 \* C01 Agreement (evaluated when node e.n accepts block b at height b.h)
@@ -323,6 +334,40 @@ PromptProposal(e, pre) ==
   => Bc(e, "PrepareRequest") # {}
 SubscribeOnlyIfConfigured(e, cfg) == Cbs(e, "SubscribeForTxs") # {} => cfg.maxTpb > 0
 
+\* C14 Time enters only through the injected timer
+TruncDiv(a, b) == IF a >= 0 THEN a \div b ELSE -((-a) \div b)
+\* the round-trip average moves only by a sample measured on the injected clock (wall-clock leaks show here)
+RttVirtual(e, pre) ==
+  (pre.started /\ e.post.started /\ e.call \notin {"Start", "Reset"} /\ e.post.rttAvg # pre.rttAvg) =>
+     /\ pre.sentAt >= 0
+     /\ LET t == e.now - pre.sentAt
+            tt == IF pre.rttOld # 0 /\ t > 2 * pre.rttOld THEN 2 * pre.rttOld ELSE t
+            nw == pre.rttAvg + TruncDiv(tt - pre.rttOld, 70)
+        IN e.post.rttAvg = (IF nw < 0 THEN 0 ELSE nw)
+\* pair runs (driver "shift"): same calls, clocks differing by delta => same effects, absolute instants shifted
+ShTs(t, d) == IF t = 0 THEN 0 ELSE IF t > 2000000000 THEN (IF d = 0 THEN t ELSE -1) ELSE t + d
+RECURSIVE ShiftP(_, _)
+ShiftP(m, d) ==
+  CASE m.t = "PrepareRequest" -> [m EXCEPT !.ts = ShTs(@, d)]
+    [] m.t = "PrepareResponse" -> [m EXCEPT !.ph.ts = ShTs(@, d)]
+    [] m.t \in {"ChangeView", "RecoveryRequest"} -> [m EXCEPT !.ts = ShTs(@, d)]
+    [] m.t \in {"Commit", "PreCommit"} -> [m EXCEPT !.b.ts = ShTs(@, d), !.b.prev = ""]   \* prev is a digest of timestamped content
+    [] m.t = "RecoveryMessage" -> [m EXCEPT !.prep = [i \in 1..Len(@) |-> ShiftP(@[i], d)], !.cvs = [i \in 1..Len(@) |-> ShiftP(@[i], d)],
+                                            !.pcs = [i \in 1..Len(@) |-> ShiftP(@[i], d)], !.cms = [i \in 1..Len(@) |-> ShiftP(@[i], d)]]
+    [] OTHER -> m
+ShiftEffect(c, d) == CASE c.k = "Broadcast" -> [c EXCEPT !.m = ShiftP(@, d)]
+                       [] c.k \in {"ProcessBlock", "ProcessPreBlock"} -> [c EXCEPT !.block.ts = ShTs(@, d), !.block.prev = ""]
+                       [] OTHER -> c
+ShiftOK(x) ==
+  LET ea == EffectsSeq(x.a)  eb == EffectsSeq(x.b) IN
+    /\ x.a.call = x.b.call /\ x.a.panic = x.b.panic
+    /\ Len(ea) = Len(eb) /\ \A i \in 1..Len(ea) : ShiftEffect(ea[i], x.delta) = ShiftEffect(eb[i], 0)
+    /\ x.a.post.started = x.b.post.started
+    /\ x.a.post.started => /\ x.a.post.h = x.b.post.h /\ x.a.post.v = x.b.post.v /\ x.a.post.rttAvg = x.b.post.rttAvg
+                            /\ x.a.post.timer.d = x.b.post.timer.d /\ x.a.post.timer.ext = x.b.post.timer.ext
+                            /\ x.a.post.timer.k = x.b.post.timer.k
+                            /\ (x.a.post.timer.k = "t" => x.a.post.timer.due + x.delta = x.b.post.timer.due)
+
 \* C15 Honest proposals are well formed (every own PrepareRequest broadcast)
 LastBefore(e, j, kind) == LET ks == {k \in Cbs(e, kind) : k < j} IN IF ks = {} THEN 0 ELSE CHOOSE k \in ks : \A x \in ks : x <= k
 MaxI(a, b) == IF a >= b THEN a ELSE b
@@ -353,7 +398,7 @@ CacheSet(c) == UNION { {[h |-> x.h, kind |-> "prepare", from |-> p.from, p |-> p
                        \cup {[h |-> x.h, kind |-> "commit", from |-> p.from, p |-> p] : p \in Range(x.commit)} : x \in Range(c) }
 CoreFields == {"started", "h", "v", "n", "me", "watch", "primary", "amev", "vals", "prev", "ts", "nonce", "txs", "have", "missing",
                "prep", "pc", "cm", "cv", "lastcv", "seen", "blockDone", "preDone", "hdr", "preHdr", "blk", "preBlk", "cache",
-               "timer", "sub", "lbTs", "lbTime", "lbIdx", "lbView", "sentAt", "rttAvg", "tpb", "maxTpb"}
+               "timer", "sub", "lbTs", "lbTime", "lbIdx", "lbView", "sentAt", "rttAvg", "rttOld", "tpb", "maxTpb"}
 Core(s, cfg) ==
   IF ~s.started THEN [Node!Blank(cfg) EXCEPT !.timer = IF "timer" \in DOMAIN s THEN s.timer ELSE @]
   ELSE [f \in CoreFields |->
@@ -364,20 +409,12 @@ Core(s, cfg) ==
             [] OTHER -> s[f]]
        @@ [out |-> <<>>, fp |-> 0, fb |-> 0, rec |-> FALSE, cfg |-> cfg, env |-> [now |-> 0]]
 ViewOf(x) == [f \in CoreFields |-> x[f]]
-EffectKinds == {"Broadcast", "TimerReset", "TimerExtend", "ProcessBlock", "ProcessPreBlock", "RequestTx", "SubscribeForTxs", "StopTxFlow"}
-EffectOf(c) == CASE c.k = "Broadcast" -> [k |-> c.k, m |-> c.m]
-                 [] c.k = "TimerReset" -> [k |-> c.k, h |-> c.h, v |-> c.v, d |-> c.d]
-                 [] c.k = "TimerExtend" -> [k |-> c.k, d |-> c.d]
-                 [] c.k \in {"ProcessBlock", "ProcessPreBlock"} -> [k |-> c.k, block |-> c.block, ok |-> c.ok]
-                 [] c.k = "RequestTx" -> [k |-> c.k, hashes |-> c.hashes]
-                 [] OTHER -> [k |-> c.k]
-EffectsSeq(e) == LET sel == SelectSeq(e.cb, LAMBDA c : c.k \in EffectKinds) IN [i \in 1..Len(sel) |-> EffectOf(sel[i])]
 EnvOf(e) ==
   [now |-> e.now, ledger |-> e.ledger, known |-> Range(e.app.known), pool |-> e.app.pool, bad |-> Range(e.app.bad),
    failPre |-> e.app.failPre, failBlock |-> e.app.failBlock, nilBlock |-> e.app.nilBlock,
    rejects |-> {e.cb[j].m : j \in {k \in 1..Len(e.cb) : e.cb[k].k \in {"VerifyPrepareRequest", "VerifyPrepareResponse", "VerifyCommit", "VerifyPreCommit"} /\ ~e.cb[k].ok}},
    nonce |-> (LET js == Cbs(e, "NewPrepareRequest") IN IF js = {} THEN "0" ELSE e.cb[CHOOSE j \in js : \A k \in js : j <= k].block.nonce),
-   rttAvg |-> e.post.rttAvg,
+   rttOldNext |-> e.post.rttOld,
    rmOrder |-> [w \in {e.cb[j].which : j \in Cbs(e, "RMOrder")} |-> e.cb[CHOOSE j \in Cbs(e, "RMOrder") : e.cb[j].which = w].perm]]
 \* replay of cached payloads is explored in every order: skip the (rare) calls where that is too many
 TooManyOrders(pre, e) ==
@@ -444,6 +481,7 @@ StepViolations(e, pre, cfg) ==
           \cup P("C13", "Silent", Silent(e, pre))
           \cup P("C08", "NoViewChangeAsked", NoViewChangeAsked(e))
           \cup P("C16", "NoViewChangeAsked", ~DynRun \/ NoViewChangeAsked(e))
+          \cup P("C14", "RttVirtual", RttVirtual(e, pre))
           \cup P("C16", "PromptProposal", PromptProposal(e, pre))
           \cup P("C16", "SubscribeOnlyIfConfigured", SubscribeOnlyIfConfigured(e, cfg))
 
@@ -509,7 +547,7 @@ DivergeDetail(e, pre, cfg) ==
                   IF o.out = EffectsSeq(e) THEN "out-equal" ELSE <<"model-out", o.out, "real-out", EffectsSeq(e)>>>>)
 
 Step ==
-  /\ l <= Len(TLog) /\ ~IsRunStart(TLog[l]) /\ ~IsRunEnd(TLog[l])
+  /\ l <= Len(TLog) /\ ~IsRunStart(TLog[l]) /\ ~IsRunEnd(TLog[l]) /\ ~IsPair(TLog[l])
   /\ LET e == TLog[l]
          pre == IF e.fresh THEN NotStarted ELSE st[e.n]
          cfg == IF "cfg" \in DOMAIN e THEN e.cfg ELSE cfgs[e.n]
@@ -555,7 +593,14 @@ EndRun ==
        /\ nviol' = nviol + Cardinality(V)
   /\ l' = l + 1 /\ UNCHANGED <<run, st, acc, sent, lock, maxv, preOk, txq, cfgs, ndiv, lastProp, recPrim, initTs>>
 
-Next == StartRun \/ Step \/ EndRun
+PairStep ==
+  /\ l <= Len(TLog) /\ IsPair(TLog[l])
+  /\ LET ok == ShiftOK(TLog[l]) IN
+       /\ ~ok => PrintT(<<"VIOL", "C14", "ClockShift", "", run.run, TLog[l].i, 500, TLog[l].a.call>>)
+       /\ nviol' = nviol + (IF ok THEN 0 ELSE 1)
+  /\ l' = l + 1 /\ UNCHANGED <<run, st, acc, sent, lock, maxv, preOk, txq, cfgs, ndiv, lastProp, recPrim, initTs>>
+
+Next == StartRun \/ Step \/ EndRun \/ PairStep
 Spec == Init /\ [][Next]_vars
 
 \* the whole file was consumed (checked when TLC has finished)
